@@ -124,7 +124,7 @@ impl GenCfg {
             (K::RestartClone, 1),
             (K::RestartSerde, 0),
             (K::Fork, 0),
-            (K::Clear, 0),
+            (K::Clear, 1),
             (K::ObsTraverse, 0),
             (K::ObsPull, 0),
             (K::ObsLookup, 0),
